@@ -180,6 +180,10 @@ theorem include_sim {env : Env} {ctx : Cfg} {f : Nat} (h : Hyp env ctx f) (henv 
     | none => exact ih true
     | some T =>
       simp only []
+      cases hL : T.loadErr with
+      | some kk => simp [liftS]
+      | none =>
+      simp only []
       by_cases hd : outer + INCLUDE_COST + st.frames.length > LIMIT
       · simp [hd, liftS]
       · simp only [hd, if_false]
@@ -734,6 +738,10 @@ theorem hyp_succ (env : Env) (ctx : Cfg) (henv : EnvOK env) (f : Nat) (h : Hyp e
           cases hT : env[t]? with
           | none => simp [outFr]
           | some T =>
+            simp only []
+            cases hL : T.loadErr with
+            | some kk => simp [outFr]
+            | none =>
             simp only []
             have hst1 : ∀ fs, ChainSt env (chain ++ [t])
                 { blocks := appendBlocks st.blocks T.blocks, depth := st.depth, loaded := t :: st.loaded,
